@@ -26,9 +26,41 @@ def signum(how):
     return int(getattr(signal, how))
 
 
+def exit_status(how):
+    """'exit' -> 7, 'exit:k' -> k, anything else -> None"""
+    if how == "exit":
+        return 7
+    if how.startswith("exit:"):
+        return int(how[5:])
+    return None
+
+
+def arm_idle_exit():
+    """(warm-up call) start once per worker a thread that makes the worker os._exit(k) -- a death with an exit
+    STATUS, 0 included, instead of a signal -- as soon as the harness creates the file exit_<pid> containing k:
+    this is how a worker "exits while idle / while the next call starts" """
+    if os.getpid() == PARENT or getattr(arm_idle_exit, "armed", False):
+        return
+    arm_idle_exit.armed = True
+    import threading
+    path = os.path.join(SYNC, "exit_%d" % os.getpid())
+
+    def watch():
+        while True:
+            try:
+                k = int(open(path).read())
+            except (OSError, ValueError):
+                time.sleep(0.005)
+                continue
+            os._exit(k)
+    threading.Thread(target=watch, daemon=True).start()
+
+
 def die(how):
     if os.getpid() == PARENT:
         return
+    if exit_status(how) is not None:
+        os._exit(exit_status(how))
     if how == "SIGKILL":
         os.kill(os.getpid(), signal.SIGKILL)
     elif how not in ("SIGSEGV", "exit", "SIGTERM"):
@@ -37,8 +69,6 @@ def die(how):
     elif how == "SIGSEGV":
         import faulthandler
         faulthandler._sigsegv()
-    elif how == "exit":
-        os._exit(7)
     elif how == "SIGTERM":
         os.kill(os.getpid(), signal.SIGTERM)
         time.sleep(30)
@@ -101,6 +131,12 @@ class KillOnPickle:
     def __reduce__(self):
         if os.getpid() == PARENT:
             for p in self.pids:
+                if exit_status(self.sig) is not None:      # the armed worker thread does os._exit(k)
+                    tmp = os.path.join(SYNC, "exit_%d.tmp" % p)
+                    with open(tmp, "w") as f:
+                        f.write(str(exit_status(self.sig)))
+                    os.rename(tmp, os.path.join(SYNC, "exit_%d" % p))
+                    continue
                 try:
                     os.kill(p, signum(self.sig))
                 except ProcessLookupError:
@@ -109,9 +145,10 @@ class KillOnPickle:
 
 
 class _HalfWriter:
-    def __init__(self, real, full):
+    def __init__(self, real, full, how="SIGKILL"):
         self.real = real
         self.full = full
+        self.how = how
 
     def __getattr__(self, n):
         return getattr(self.real, n)
@@ -122,15 +159,17 @@ class _HalfWriter:
         else:
             n = len(buf)
             os.write(self.real.fileno(), struct.pack("!i", n) + bytes(buf[: n // 2]))
+        if self.full:
+            die(self.how)                    # after-send: any kind of death, exit status 0 included
         os.kill(os.getpid(), signal.SIGKILL)
 
 
-def _arm_result_writer(full):
+def _arm_result_writer(full, how="SIGKILL"):
     f = sys._getframe()
     while f is not None and f.f_code.co_name != "_process_worker":
         f = f.f_back
     rq = f.f_locals["result_queue"]
-    rq._writer = _HalfWriter(rq._writer, full)
+    rq._writer = _HalfWriter(rq._writer, full, how)
 
 
 SYNC = os.environ.get("C10_SYNC_DIR", ".")
@@ -187,9 +226,11 @@ def expected(i):
     return i * i + 1
 
 
-def task(i, fault, how, arg, sleep):
+def task(i, fault, how, arg, sleep, arm=False):
     """fault: None | 'task_start' | 'mid_task' | 'result_pickle' | 'mid_send' | 'after_send'
     ('arg_unpickle' acts through `arg`, a Bomb)."""
+    if arm:
+        arm_idle_exit()
     if fault == "task_start":
         die(how)
     if fault == "die_when_mgr_busy":
@@ -204,7 +245,7 @@ def task(i, fault, how, arg, sleep):
     if fault == "mid_send":
         _arm_result_writer(False)
     if fault == "after_send":
-        _arm_result_writer(True)
+        _arm_result_writer(True, how)
     v = (expected(i), os.getpid())
     if fault == "result_pickle":
         return ResultBomb(how, v)
